@@ -36,6 +36,7 @@ func isInitFn(fn *ssa.Function) bool {
 }
 
 type gAccess struct {
+	depth  int // call levels between the access and the lock that covers it (underLock)
 	in     ssa.Instruction
 	fn     *ssa.Function
 	write  bool
@@ -216,6 +217,22 @@ func (c *Ctx) underLock(a gAccess, all []gAccess, needWrite bool) (bool, string)
 		}
 	}
 	if lock == nil {
+		// (after seed C14i) a lock-free helper that is only ever called with the lock held: an unexported function
+		// that is not used as a value and all of whose call sites lie under a dominating Lock/RLock of the same
+		// mutex in their own function
+		if a.depth < 2 && a.fn.Parent() == nil && a.fn.Object() != nil && !a.fn.Object().Exported() && !c.usedAsValue(a.fn) {
+			sites := c.callSitesOf(a.fn)
+			held := len(sites) > 0
+			for _, cs := range sites {
+				site := gAccess{in: cs.(ssa.Instruction), fn: cs.Parent(), depth: a.depth + 1}
+				if ok, _ := c.underLock(site, all, needWrite); !ok {
+					held = false
+				}
+			}
+			if held {
+				return true, "a helper whose every caller holds the lock around the call"
+			}
+		}
 		return false, "no dominating Lock on the variable's mutex"
 	}
 	want := "Unlock"
